@@ -54,6 +54,8 @@ def boot():
     if os.path.exists(p):
         steps = json.load(open(p))
     BOOT['steps'] = steps
+    p = os.path.join(os.path.dirname(__file__), 'funcs.json')
+    BOOT['funcs'] = json.load(open(p)) if os.path.exists(p) else {}
     # executable lines inside functions of pymeeus (denominator of the pre-emption-line measure)
     lines = set()
 
@@ -207,6 +209,7 @@ def exec_S(source):
         'sim_seconds': C.now - t0,
         'sched_keys': sorted(sim.sched_keys),
         'point_lines': sorted(sim.point_lines),
+        'funcs_by_name': dict((k, sorted(v)) for k, v in sim.funcs_by_name.items()),
         'nontrivial': bool(sim.counters.get('fired.nest', 0) + sim.counters.get('fired.cancel', 0) +
                            sim.counters.get('switches', 0) + sum(C.counts.get(k, 0) for k in ('straddle', 'step', 'jump', 'stall'))),
     }
